@@ -38,6 +38,7 @@ def main():
     ap.add_argument("--name")
     ap.add_argument("--tier", default="quick")
     ap.add_argument("--skip-tests", action="store_true")
+    ap.add_argument("--tests", default="tests", help="test files of the repo to run with the patch applied")
     a = ap.parse_args()
     src = os.path.abspath(a.src)
     slug = a.name or os.path.basename(src.rstrip("/"))
@@ -65,8 +66,9 @@ def main():
                 meta["demo_patched_rc"] = rc1
                 meta["demo_patched_tail"] = out1[-600:]
             if not a.skip_tests:
-                rct, outt = sh("/venv/bin/python -m pytest -q -p no:cacheprovider -n 6 tests 2>&1 | tail -3", cwd=WT, env=env,
+                rct, outt = sh(f"/venv/bin/python -m pytest -q -p no:cacheprovider -n 4 {a.tests} 2>&1 | tail -3", cwd=WT, env=env,
                                timeout=1800)
+                meta["repo_tests_run"] = a.tests
                 meta["repo_tests_tail"] = outt.strip()[-300:]
                 meta["repo_tests_pass"] = bool(re.search(r"\b\d+ passed", outt)) and "failed" not in outt
             t0 = time.time()
